@@ -66,7 +66,7 @@ func (fc *fctx) instr(ins ssa.Instruction) {
 		}
 	case *ssa.Store:
 		fc.derefCheck(x.Addr, x.Pos())
-		if len(tr.protected) > 0 && !addrOfLocal(x.Addr) {
+		if len(tr.protected) > 0 && loadedPointer(x.Addr) {
 			// a store through a pointer that was loaded or received: it cannot designate a local whose address never
 			// leaves the function (that address is stored nowhere)
 			var cs []string
@@ -229,12 +229,20 @@ func (fc *fctx) instr(ins ssa.Instruction) {
 	}
 }
 
-// addrOfLocal: the address is computed from a local allocation of this function (field / element of an Alloc)
-func addrOfLocal(v ssa.Value) bool {
+// loadedPointer: the pointer value was read out of memory (a pointer cell, a map value, a call result), possibly followed
+// by field / element address computations - as opposed to a parameter, a free variable or a local allocation.  Such a
+// pointer cannot be the address of a local whose address is stored nowhere.
+func loadedPointer(v ssa.Value) bool {
 	for {
 		switch x := v.(type) {
-		case *ssa.Alloc:
+		case *ssa.UnOp:
+			return x.Op == token.MUL
+		case *ssa.Lookup:
 			return true
+		case *ssa.Field:
+			v = x.X
+		case *ssa.Extract:
+			v = x.Tuple
 		case *ssa.FieldAddr:
 			v = x.X
 		case *ssa.IndexAddr:
